@@ -87,7 +87,16 @@ OkOf(steps) == [i \in 1..Len(steps) |-> steps[i] \in Goods]
 SeqCases == {[kind |-> "seq", steps |-> <<a, b, c>>, expok |-> OkOf(<<a, b, c>>), tags |-> <<"c14", "sequence">>] : a \in Srcs, b \in Fails, c \in Srcs}
             \cup {[kind |-> "seq", steps |-> <<a, b, a, c, a>>, expok |-> OkOf(<<a, b, a, c, a>>), tags |-> <<"c14", "sequence">>] : a \in Goods, b \in Fails, c \in Fails}
             \cup {[kind |-> "seq", steps |-> <<a, b, c>>, expok |-> OkOf(<<a, b, c>>), tags |-> <<"c14", "sequence">>] : a \in Goods, b \in Goods, c \in Srcs}
-Cases == RenderCases \cup TreeCases \cup SeqCases
+\* one loaded Template rendered with several data maps in a row (components without arguments read the caller's data)
+DStr(k, v) == [k |-> k, v |-> [t |-> "str", v |-> v]]
+DInt(k, n) == [k |-> k, v |-> [t |-> "int", b |-> "z", o |-> n]]
+DataTrees == {[kind |-> "tree", files |-> <<F("components/who", "[{{ who }}:{{ n }}]"), F("layouts/main", "<l>@reserve(\"c\")</l>{{ who }}"),
+                                            F("home", "@use(\"~main\")@insert(\"c\")@component(\"~who\")@each(x in [1, 2])@component(\"~who\")@end@end")>>,
+               cfg |-> [dir |-> "t", ext |-> ".tw"], page |-> "home", datas |-> ds, tags |-> <<"c14", "one-template-several-data">>] :
+               ds \in {<<<<DStr("who", "A"), DInt("n", 1)>>, <<DStr("who", "B"), DInt("n", 2)>>, <<DStr("who", "A"), DInt("n", 1)>>>>,
+                       <<<<DStr("who", "A"), DInt("n", 1)>>, <<DStr("who", "B")>>, <<DInt("n", 3)>>>>,
+                       <<<<DInt("who", 5), DInt("n", 1)>>, <<DStr("who", "s"), DStr("n", "t")>>>>}}
+Cases == RenderCases \cup TreeCases \cup SeqCases \cup DataTrees
 Init == cas \in Cases /\ rec = FALSE
 Next == ~rec /\ rec' = TRUE /\ UNCHANGED cas
 Spec == Init /\ [][Next]_vars
